@@ -1,6 +1,7 @@
 (* C10 — Breakpad symbol index is independent of chunking and agrees with the .sym text. *)
 From SV Require Import Lib.Bytes Model.LineBuffer Proofs.LineBufferProofs Model.BreakpadIndex Proofs.BreakpadIndexProofs.
 From SV Require Import Model.BreakpadIndexParse Proofs.BreakpadIndexParseProofs.
+From SV Require Import Model.BreakpadLookup Spec.BreakpadText Proofs.BreakpadTextLines Proofs.BreakpadTextProofs Proofs.BreakpadTextEnd.
 Open Scope N_scope.
 
 (* For EVERY partition of a byte string into chunks (1-byte chunks, splits inside "\r\n", anything): the lines the incremental
@@ -30,7 +31,39 @@ Theorem C10_serialize_parse_serialize :
   forall i : index, wf_index i -> option_map serialize (parse_symindex (serialize i)) = Some (serialize i).
 Proof. exact serialize_parse_serialize. Qed.
 
+(* lookups through a separately stored index (serialized, parsed back) give the same answers as lookups through the index itself *)
+Theorem C10_stored_index_lookups :
+  forall ix : index, wf_index ix ->
+    exists stored, parse_symindex (serialize ix) = Some stored /\
+                   forall (text : bytes) (a : N), lookup text stored a = lookup text ix a.
+Proof. exact stored_index_lookups. Qed.
+
+(* For EVERY well-formed .sym text below 4 GiB (Spec/BreakpadText.v wf_text: a MODULE line first, distinct symbol addresses and
+   FILE / INLINE_ORIGIN indices, FUNC ranges within 32 bits, line records ascending within a FUNC, inline ranges of one depth
+   disjoint and non-empty, no malformed INLINE record) and EVERY address: the lookup through the index built for that text
+   (binary search over the sorted symbol table, the FUNC block read back through its file offset and length, ordered searches for
+   the inline chain and the line record, FILE / INLINE_ORIGIN strings through the index) returns exactly what the straightforward
+   reading of the text returns (the FUNC or PUBLIC record covering the address, its inline call chain, file and line of the
+   covering line record). *)
+Theorem C10_lookup_agrees_with_text :
+  forall (text : bytes) (ix : index) (a : N),
+    len text < 4294967296 -> wf_text text = true -> index_of_text text = Some ix ->
+    lookup text ix a = text_lookup text a.
+Proof. exact lookup_agrees_with_text. Qed.
+
+(* the three clauses together: the file arrives in ANY partition into chunks, the index is stored and read back, and lookups
+   through the stored index still agree with the text *)
+Theorem C10_end_to_end :
+  forall (chunks : list (list N)) (ix stored : index) (a : N),
+    len (concat chunks) < 4294967296 -> wf_text (concat chunks) = true ->
+    index_of_chunks chunks = Some ix -> wf_index ix -> parse_symindex (serialize ix) = Some stored ->
+    lookup (concat chunks) stored a = text_lookup (concat chunks) a.
+Proof. exact end_to_end. Qed.
+
 Print Assumptions C10_chunking.
+Print Assumptions C10_stored_index_lookups.
+Print Assumptions C10_lookup_agrees_with_text.
+Print Assumptions C10_end_to_end.
 Print Assumptions C10_parse_serialize.
 Print Assumptions C10_serialize_parse_serialize.
 Print Assumptions C10_index_chunk_invariant.
@@ -45,3 +78,17 @@ Example ex_c10_roundtrip :
   let i := mkIdx [77; 79; 68] [mkF 0 5 100; mkF 3 7 200] [mkF 1 4 300] [mkS 4096 0 10 400; mkS 8192 1 20 500] in
   parse_symindex (serialize i) = Some i /\ N.of_nat (length (serialize i)) = 140.
 Proof. vm_compute. split; reflexivity. Qed.
+
+(* Non-vacuity of C10_lookup_agrees_with_text: a well-formed text with FILE / INLINE_ORIGIN / FUNC / INLINE / line / PUBLIC records;
+   the lookup inside the inline range returns a two-frame chain. *)
+From Coq Require Import String.
+Definition ex_text : bytes := rejoin (map bytes_of_string
+  ["MODULE Linux x86_64 BE4E976C325246EE9D6B7847A670B2A90 ex"; "FILE 0 a.c"; "FILE 1 b.h"; "INLINE_ORIGIN 0 inl()";
+   "FUNC 1000 30 0 outer"; "INLINE 0 12 0 0 1010 10"; "1000 10 5 0"; "1010 10 7 1"; "1020 10 9 0"; "PUBLIC 2000 0 pub"]%string) true.
+Example ex_c10_text :
+  wf_text ex_text = true /\ len ex_text = 200 /\
+  option_map (fun ix => lookup ex_text ix 4116) (index_of_text ex_text) =
+    Some (LSome 4096 (Some 48) (bytes_of_string "outer")
+            (Some [(Some (bytes_of_string "inl()"), Some (bytes_of_string "b.h"), Some 7);
+                   (Some (bytes_of_string "outer"), Some (bytes_of_string "a.c"), Some 12)])).
+Proof. vm_compute. repeat split; reflexivity. Qed.
